@@ -180,6 +180,7 @@ func runC18(ctx *report.Ctx) {
 		tasks []*c18Task
 		cut   int // API calls kept per task (shortens the paths for the larger scenarios)
 	}
+	executed := 0
 	explore1 := func(partName string, sc scenario, o vsched.Options, cold bool, shardDepth int) {
 		// the tasks as they are run in this scenario (possibly shortened), and their traces alone
 		var tasks []*c18Task
@@ -213,19 +214,55 @@ func runC18(ctx *report.Ctx) {
 			}
 			ctx.Current(partName + ": " + sc.name + " choices so far " + intsString(c.Choices()))
 			traces := make([]string, len(sc.tasks))
-			ex := vsched.Run(o, func() {
-				done := make(chan int, len(sc.tasks))
-				for i, t := range tasks {
-					i, t := i, t
-					vsched.Go(func() {
-						traces[i] = t.run(func() { vsched.Point("api") })
-						vsched.Send(done, i)
-					})
+			body := func(into []string) func() {
+				return func() {
+					done := make(chan int, len(sc.tasks))
+					for i, t := range tasks {
+						i, t := i, t
+						vsched.Go(func() {
+							into[i] = t.run(func() { vsched.Point("api") })
+							vsched.Send(done, i)
+						})
+					}
+					for range sc.tasks {
+						vsched.Recv(done)
+					}
 				}
-				for range sc.tasks {
-					vsched.Recv(done)
+			}
+			ex := vsched.Run(o, body(traces))
+			// the same schedule executed once more must give the same execution (before any failure is believed, and
+			// for one execution in 97 anyway): nondeterminism outside the scheduler's control is a harness error
+			sameAgain := func() bool {
+				fixed := c.Choices()
+				k := 0
+				o2 := o
+				o2.Choose = func(n int, label string) int {
+					v := 0
+					if k < len(fixed) {
+						v = fixed[k]
+					}
+					k++
+					if v >= n {
+						v = 0
+					}
+					return v
 				}
-			})
+				if cold && vsched.ResetStatic != nil {
+					vsched.ResetStatic()
+				}
+				traces2 := make([]string, len(sc.tasks))
+				ex2 := vsched.Run(o2, body(traces2))
+				same := ex2.Outcome == ex.Outcome && len(ex2.Log) == len(ex.Log) && strings.Join(traces2, "\x00") == strings.Join(traces, "\x00")
+				for j := 0; same && j < len(ex.Log); j++ {
+					same = ex.Log[j].Thread == ex2.Log[j].Thread && ex.Log[j].Kind == ex2.Log[j].Kind
+				}
+				if !same {
+					ctx.HarnessError("C18 %s: the recorded schedule %s executed a second time gave another execution (nondeterminism not under the scheduler's control); nothing is reported for it", partName, intsString(fixed))
+				} else {
+					ctx.Count("schedules_replayed_identically", 1)
+				}
+				return same
+			}
 			if !decided && !c.Mine() {
 				return
 			}
@@ -256,6 +293,14 @@ func runC18(ctx *report.Ctx) {
 				ctx.Violation(report.Violation{Clause: clause, Witness: partName + " " + sc.name + " choices " + intsString(c.Choices()),
 					Detail:  detail + " -- context switches (thread@operation where it resumed): " + strings.Join(sched, " "),
 					Choices: c.Choices(), Part: partName, Extra: map[string]any{"scenario": sc.name, "context_switches": sched}})
+			}
+			bad := ex.Outcome != ""
+			for i := range tasks {
+				bad = bad || traces[i] != want[i]
+			}
+			executed++
+			if (bad || ctx.ViolationCount() == 0 && executed%97 == 0) && !skip && !sameAgain() {
+				return
 			}
 			if ex.Outcome != "" {
 				fail("concurrent-"+strings.SplitN(ex.Outcome, ":", 2)[0], "the execution ended in "+ex.Outcome+" "+strings.Join(ex.Panics, " ; "))
